@@ -97,7 +97,7 @@ def run(ctx):
             o, a, b, c, dd = r["off"], r["a"], r["b"], r["c"], r["d"]
             return "range1" if a <= o < a + b else "range2" if c <= o < c + dd else "gap" if a + b <= o < c else "beyond"
         constrained = [r for r in all_rows if (r["kind"] in ("probe", "flip", "brval") and cls(r) in ("range1", "range2"))
-                       or (r["kind"] == "hexval" and r["region"] in ("sigvalue", "digest"))]
+                       or (r["kind"] == "hexval" and r["region"] in ("sigvalue", "digest", "pad"))]
         nontrivial = set((r["doc"], r["sig"], r["kind"], r["off"], r["delta"]) for r in constrained
                          if (r["doc"], r["sig"]) in sens or r["bstatus"] == "valid" or r["bdocmod"] == "false")
         by_class = {}
@@ -124,7 +124,8 @@ def run(ctx):
                   "CRL fetch from the harness's server on 127.0.0.1 (allow-listed)",
                   "a signature whose probes are never rejected (insensitive: e.g. certificate cannot be parsed) is only judged by the "
                   "literal rule; it is listed under insensitive_signatures",
-                  "edits of DER parts that are not cryptographically bound (versions, unsigned attributes, spare certificates, padding) "
-                  "carry no expectation")
+                  "edits of DER parts that are not cryptographically bound (versions, unsigned attributes, spare certificates) and "
+                  "value-preserving edits (hex case) carry no expectation; a non-zero digit written into the padding behind the DER "
+                  "object is a modification of the signature value and must be rejected")
     finally:
         shutil.rmtree(d, ignore_errors=True)
